@@ -347,6 +347,9 @@ class _HookLock:
         self.held -= 1
 
 
+THREE = [False]
+
+
 def interleaved_threads(sx):
     """two threads on one threaded socket: the second runs a complete call at any lock boundary of the
     first one's call; both must get distinct successive numbers of the cycle"""
@@ -361,6 +364,31 @@ def interleaved_threads(sx):
 
     def other():
         got.append(s.get_and_increment_sequence_counter(k))
+    if THREE[0] and sx.choice("third_thread", 2):
+        # a third thread cuts in at a lock boundary of the second one's call
+        at3 = 1 + sx.choice("third_thread_runs_before_acquisition", 3)
+        outer = _HookLock(at, None)
+        inner_calls = []
+
+        def second():
+            saved_n, saved_at, saved_hook = outer.n, outer.hook_at, outer.hook
+            outer.n, outer.hook_at, outer.hook = 0, at3, lambda: inner_calls.append(s.get_and_increment_sequence_counter(k))
+            outer.busy = False
+            try:
+                got.append(s.get_and_increment_sequence_counter(k))
+            finally:
+                outer.n, outer.hook_at, outer.hook = saved_n, saved_at, saved_hook
+                outer.busy = True
+        outer.hook = second
+        s._lock = outer
+        r = s.get_and_increment_sequence_counter(k)
+        vals = inner_calls + got + [r]
+        sx.observe("results3", list(vals))
+        if len(vals) == 3:
+            from sx.core import And
+            sx.check(And(vals[0] != vals[1], vals[1] != vals[2], vals[0] != vals[2]), "lock.concurrent-callers-get-distinct-numbers",
+                     lambda: str(vals))
+        return
     s._lock = _HookLock(at, other)
     r = s.get_and_increment_sequence_counter(k)
     sx.observe("results", (r, list(got)))
@@ -418,6 +446,7 @@ def long_run(make):
 
 
 def units(tier):
+    THREE[0] = tier != "quick"
     for nm, mk in (("async-protocol", _mk_async_proto), ("threaded-socket", _mk_socket)):
         yield Unit(f"independence.{nm}", independence(mk))
         yield Unit(f"long-run.{nm}", long_run(mk), validate=False)
